@@ -195,7 +195,14 @@ def _sanitize(node):
     # PEP 695 aliases are documented as unsupported by TypeHint: each stands for its target here
     for name, (_alias, target) in H.ALIASES.items():
         node = _replace(node, ['alias', name], target)
-    return node, 0
+    return _plain_tuples(node), 0
+
+
+def _plain_tuples(node):
+    # PEP 646 spellings of fixed tuples are documented as unsupported by TypeHint too
+    if node[0] == 'tupf' and node[2] in ('u', 'v'):
+        node = ['tupf', node[1], 't']
+    return H._map_children(node, _plain_tuples)
 
 
 @st.composite
